@@ -1,0 +1,20 @@
+//go:build verif && (verif_all || verif_c01 || verif_c06)
+// +build verif
+// +build verif_all verif_c01 verif_c06
+
+package gocql
+
+// Verification hooks (build tag `verif`) for C06, round g: the event debouncers of the bare connection's stand-in
+// session hand their batches to the harness (the real handlers, ring refresh / schema refresh, are queries on the
+// control connection that can take arbitrarily long: the harness holds the handler instead). Add-only.
+
+// SetEventHandlers replaces the call-backs of the stand-in session's two event debouncers (call before the first
+// EVENT frame is delivered). fn runs wherever eventDebouncer.flush runs its call-back.
+func (v *VerifC06Conn) SetEventHandlers(fn func(kind string, n int)) {
+	v.sess.nodeEvents.mu.Lock()
+	v.sess.nodeEvents.callback = func(fs []frame) { fn("node", len(fs)) }
+	v.sess.nodeEvents.mu.Unlock()
+	v.sess.schemaEvents.mu.Lock()
+	v.sess.schemaEvents.callback = func(fs []frame) { fn("schema", len(fs)) }
+	v.sess.schemaEvents.mu.Unlock()
+}
